@@ -586,9 +586,21 @@ def arguments_walked_once(prog, rep, rule="bulk-delegation"):
                             for y in ast.walk(ch):
                                 parents.setdefault(id(y), []).append((id(p_), fld)) if isinstance(p_, ast.If) else None
 
+                ifs_by_id = {id(p_): p_ for p_ in ast.walk(f.node) if isinstance(p_, ast.If)}
+
+                def leaves_fn(stmts):
+                    return bool(stmts) and isinstance(stmts[-1], (ast.Return, ast.Raise))
+
                 def exclusive(a_, b_):
                     pa, pb = dict(parents.get(id(a_), [])), dict(parents.get(id(b_), []))
-                    return any(k in pb and pb[k] != v for k, v in pa.items())
+                    if any(k in pb and pb[k] != v for k, v in pa.items()):
+                        return True
+                    # one pass sits in an arm that ends the method (return / raise) and the other lies outside that `if`
+                    for x_, px, py in ((a_, pa, pb), (b_, pb, pa)):
+                        for k, fld in px.items():
+                            if k not in py and leaves_fn(getattr(ifs_by_id[k], fld)):
+                                return True
+                    return False
                 seq = []
                 for x in passes:
                     if all(not exclusive(x, y) for y in seq):
@@ -615,7 +627,17 @@ def refusals_are_total(prog, rep, rule="channel-unique-guard"):
         c = next((k for m in prog.modules.values() for k in m.classes.values() if k.name == cname), None)
         if c is None:
             continue
-        for f in c.all_funcs():
+        # on the source as written (in the normal form an inlined helper's message carries the caller's argument expressions, which
+        # were evaluated before the call anyway)
+        raw = ast.parse((prog.src / c.module.path.name).read_text())
+        rc = next((k for k in ast.walk(raw) if isinstance(k, ast.ClassDef) and k.name == cname), None)
+        if rc is None:
+            raise AnalysisError(f"anchor vanished: class {cname}")
+
+        class _F:
+            def __init__(self, node):
+                self.node, self.name = node, node.name
+        for f in [_F(m_) for m_ in rc.body if isinstance(m_, ast.FunctionDef)]:
             for r in [x for x in walk_no_nested(f.node) if isinstance(x, ast.Raise) and isinstance(x.exc, ast.Call)]:
                 for a in list(r.exc.args) + [k.value for k in r.exc.keywords]:
                     n += 1
